@@ -369,6 +369,25 @@ fn json_outcome<K: TKey>(text: &str, tab: &mut Tab) -> (Value, Option<Enr<K>>) {
     }
 }
 
+fn json_outcome_via<K: TKey>(text: &str, tab: &mut Tab, via: u8) -> (Value, Option<Enr<K>>) {
+    let r = catch_unwind(AssertUnwindSafe(|| -> Result<Enr<K>, String> {
+        if via == 1 {
+            let v: Value = serde_json::from_str(text).map_err(|e| e.to_string())?;
+            serde_json::from_value::<Enr<K>>(v).map_err(|e| e.to_string())
+        } else {
+            serde_json::from_reader::<_, Enr<K>>(text.as_bytes()).map_err(|e| e.to_string())
+        }
+    }));
+    match r {
+        Err(_) => (json!({"kind": "panic", "rest": 0, "core": 0}), None),
+        Ok(Err(_)) => (json!({"kind": "err", "rest": 0, "core": 0}), None),
+        Ok(Ok(e)) => {
+            let idx = tab.put(core_obs(&e));
+            (json!({"kind": "ok", "rest": 0, "core": idx}), Some(e))
+        }
+    }
+}
+
 /// extended observation: text forms, typed accessors, generic getters, iteration, conversions, re-decodings
 pub fn ext_obs<K: TKey>(e: &Enr<K>, tab: &mut Tab) -> Value {
     ext_obs_level(e, tab, 2)
@@ -444,6 +463,11 @@ pub fn ext_obs_level<K: TKey>(e: &Enr<K>, tab: &mut Tab, level: u8) -> Value {
     redec.insert("text".into(), with_eq(o, r.as_ref(), e));
     let (o, r) = json_outcome::<K>(&js, tab);
     redec.insert("json".into(), with_eq(o, r.as_ref(), e));
+    // the same JSON document through the other serde_json entry points (owned value, reader)
+    let (o, r) = json_outcome_via::<K>(&js, tab, 1);
+    redec.insert("json_value".into(), with_eq(o, r.as_ref(), e));
+    let (o, r) = json_outcome_via::<K>(&js, tab, 2);
+    redec.insert("json_reader".into(), with_eq(o, r.as_ref(), e));
     // the text form without its prefix
     let (o, r) = text_outcome::<K>(text.strip_prefix("enr:").unwrap_or(&text), tab);
     redec.insert("text_noprefix".into(), with_eq(o, r.as_ref(), e));
